@@ -368,6 +368,10 @@ def check_main(pid, tier, seed, nruns=None, jobs=None, quiet=False):
         json.dump(v, open(path, "w"), indent=1)
         vio_lines.append((path, v))
     known_all = {k["id"]: k for k in load_known(pid)}
+    if os.environ.get("VERIF_LOGDIGEST"):
+        json.dump(agg["log_digests"], open(os.environ["VERIF_LOGDIGEST"], "w"), sort_keys=True)
+    if os.environ.get("VERIF_NO_EVIDENCE"):
+        return 1 if vio_lines else (2 if (agg["harness_errors"] or harness_fail or agg["runs"] == 0) else 0)
     # ---- evidence
     ev = build_evidence(prop, pid, tier, seed, nruns, agg, wall, len(vio_lines), hs_sorted, jobs)
     os.makedirs(os.path.join(VERIF, "evidence"), exist_ok=True)
